@@ -25,9 +25,15 @@ macro_rules! ev {
 }
 ev!(E1, E2, E3, E4, E5, E6);
 
+/// Registered first in every app (part of every sequence): a mapped client event that the client's
+/// game logic sends on the very frame the connection comes up, referencing a local entity the
+/// server cannot know. It must be withheld without disturbing the handshake.
+#[derive(Event, Serialize, Deserialize, Clone, Copy, Debug, bevy::ecs::entity::MapEntities)]
+struct Probe(#[entities] Entity);
+
 /// Registration actions. Any two differ in kind, type, priority or independence target
 /// (never only in a send rate, which the property does not list).
-const ACTIONS: [&str; 29] = [
+const ACTIONS: [&str; 31] = [
     "replicate::<A>",                       // 0
     "replicate::<B>",                       // 1
     "replicate_once::<C>",                  // 2
@@ -57,6 +63,8 @@ const ACTIONS: [&str; 29] = [
     "make_trigger_independent::<E3>",       // 26 needs 24 (same type as 18, different kind)
     "add_server_event::<E5>",               // 27 server event for a type that is also a server trigger (15)
     "make_event_independent::<E5>",         // 28 needs 27 (same type as 20, different kind)
+    "replicate_with_priority(usize::MAX,D)",   // 29
+    "replicate_with_priority(usize::MAX-1,D)", // 30 same type as 29, priority differs above 2^32
 ];
 
 fn prerequisite(a: usize) -> Option<usize> {
@@ -183,6 +191,12 @@ fn apply(app: &mut App, a: usize) {
         28 => {
             app.make_event_independent::<E5>();
         }
+        29 => {
+            app.replicate_with_priority(usize::MAX, RuleFns::<D>::default());
+        }
+        30 => {
+            app.replicate_with_priority(usize::MAX - 1, RuleFns::<D>::default());
+        }
         _ => unreachable!(),
     }
 }
@@ -234,7 +248,16 @@ fn build_with_noise(seq: &[usize], auth: AuthMethod, noise: u64) -> App {
         MinimalPlugins,
         RepliconPlugins.set(RepliconSharedPlugin { auth_method: auth }).set(ServerPlugin { tick_policy: TickPolicy::EveryFrame, ..Default::default() }),
     ))
-    .init_resource::<Hs>();
+    .init_resource::<Hs>()
+    .add_mapped_client_event::<Probe>(Channel::Ordered)
+    .add_systems(
+        Update,
+        (|mut commands: Commands, mut w: EventWriter<Probe>| {
+            let local = commands.spawn_empty().id();
+            w.write(Probe(local));
+        })
+        .run_if(client_just_connected),
+    );
     let mut n = Rng::new(noise);
     if noise != 0 {
         add_noise(&mut app, n.next() as u8);
